@@ -1541,7 +1541,7 @@ namespace bloch::compiler {
         if (auto unary = dynamic_cast<UnaryExpression*>(expr)) {
             if (unary->op == "-") {
                 auto val = evaluateConstInt(unary->right.get());
-                if (val)
+                if (val && *val != std::numeric_limits<int>::min())
                     return -*val;
             }
             return std::nullopt;
@@ -1557,23 +1557,25 @@ namespace bloch::compiler {
             auto right = evaluateConstInt(bin->right.get());
             if (!left || !right)
                 return std::nullopt;
+            // fold in 64 bits; a result that does not fit an int is not an int constant
+            auto fits = [](long long v) -> std::optional<int> {
+                if (v < std::numeric_limits<int>::min() || v > std::numeric_limits<int>::max())
+                    return std::nullopt;
+                return static_cast<int>(v);
+            };
+            const long long l = *left, r = *right;
             if (bin->op == "+")
-                return *left + *right;
+                return fits(l + r);
             if (bin->op == "-")
-                return *left - *right;
+                return fits(l - r);
             if (bin->op == "*")
-                return *left * *right;
-            if (bin->op == "/") {
-                if (*right == 0)
-                    throw BlochError(ErrorCategory::Semantic, bin->line, bin->column,
-                                     "division by zero in constant integer expression");
-                return *left / *right;
-            }
+                return fits(l * r);
+            // '/' always yields a float in Bloch, so it is never an integer constant
             if (bin->op == "%") {
-                if (*right == 0)
+                if (r == 0)
                     throw BlochError(ErrorCategory::Semantic, bin->line, bin->column,
                                      "modulo by zero in constant integer expression");
-                return *left % *right;
+                return fits(r == -1 ? 0 : l % r);
             }
             return std::nullopt;
         }
